@@ -867,6 +867,22 @@ class BaseInterpreter(Generic[TContext, TEvent]):
                 f"{type(snapshot).__name__}."
             )
 
+        # 🧯 A truncated or hand-edited snapshot must fail as a library error,
+        #    not as a raw KeyError/TypeError from the restore code below.
+        restore_ids = snapshot.get("configuration") or snapshot.get(
+            "state_ids"
+        )
+        if (
+            "context" not in snapshot
+            or not isinstance(snapshot.get("status"), str)
+            or not isinstance(restore_ids, list)
+            or not all(isinstance(sid, str) for sid in restore_ids)
+        ):
+            raise InvalidConfigError(
+                "Snapshot is missing 'context', 'status' or a list of state "
+                "ids ('configuration' / 'state_ids')."
+            )
+
         # 🧪 Create a new instance of the correct interpreter class (sync/async)
         interpreter = cls(machine)
         interpreter.context = snapshot["context"]
